@@ -123,7 +123,7 @@ impl BoxedUint {
     pub fn checked_div(&self, rhs: &Self) -> CtOption<Self> {
         let is_nz = rhs.is_nonzero();
         let nz = NonZero(Self::ct_select(
-            &Self::one_with_precision(self.bits_precision()),
+            &Self::one_with_precision(rhs.bits_precision()),
             rhs,
             is_nz,
         ));
